@@ -4,7 +4,7 @@
    failure -> exception + pop. Statements hold for every sequence of send() results (every pattern of partial kernel
    writes and failures) and every queue. Producer/driver interleavings: Properties_C04/C05 (the enqueue and the send are
    atomic actions under sendQMtx; arming happens under stepMtx). *)
-From SP Require Import Base ListAux Os OsLemmas WaitLemmas Objects DriverModel DriverLemmas SocketLemmas.
+From SP Require Import Base ListAux Os OsLemmas WaitLemmas Objects DriverModel DriverLemmas SocketLemmas PoolModel SendLink.
 Local Open Scope Z_scope.
 
 (* bytes reach the wire buffer by buffer in queue order: a buffer's bytes are contiguous, never after a later buffer's *)
@@ -55,12 +55,32 @@ Proof.
   - destruct (Sone ltac:(discriminate)) as [ret_ [-> _]]. destruct Hin as [<-|[]]. reflexivity.
 Qed.
 
+(* the tie between the queue machine and the model of DriverSend (so far "by construction"): for a queue whose front buffer
+   (future f, buffer i of user pool o, size bytes left) is pending and busy, ONE send() result r has on the real state exactly
+   the effect sq_step computes — failure: f fails, the element leaves; r = size: f gets its value, the element leaves;
+   otherwise the element stays at the front with size - r bytes left and no future is touched; no other future changes *)
+Theorem driver_send_refines_queue_machine :
+  forall (k f o i dst : Z) (rest : list (Z * Z * Z * Z)) (sk : sock) (ft : fut) (pl : pool) (b : buf) (busy' : list buf) (st : os ext),
+  aget k (x_socks (o_ext st)) = Some sk -> s_sendq sk = (f, o, i, dst) :: rest -> o <? 1000 = true ->
+  aget o (x_pools (o_ext st)) = Some pl -> remove_id i (p_busy pl) = Some (b, busy') ->
+  aget f (x_futs (o_ext st)) = Some ft -> f_state ft = 0 ->
+  forall r err sc qrest,
+  o_script st = EvSend r err :: sc -> r <= buf_size i (p_busy pl) -> (r = 0 -> buf_size i (p_busy pl) = 0) ->
+  exists st' res,
+    driver_send k st = (Ok res, st') /\ o_script st' = sc /\
+    let '(q', ev) := sq_step ((f, buf_size i (p_busy pl)) :: qrest) r in
+    after k f o i dst rest st st' ev (match ev with SqNone => Some (buf_size i (p_busy pl) - r) | _ => None end) /\
+    q' = (match ev with SqNone => (f, buf_size i (p_busy pl) - r) :: qrest | _ => qrest end) /\
+    res = (match ev with SqNone => false | _ => match rest with [] => true | _ => false end end).
+Proof. exact SendLink.driver_send_refines. Qed.
+
 Example c02_nonvacuous :
   sq_run [(0, 10); (1, 0); (2, 5)] [4; 6; 0; -1] = ([], [(0, 4); (0, 6)], [SqNone; SqValue 0; SqValue 1; SqFailed 2]) /\
   rets_ok [(0, 10); (1, 0); (2, 5)] [4; 6; 0; -1].
 Proof. vm_compute. repeat split; intros; try discriminate; try lia. Qed.
 
 Print Assumptions driver_send_fifo.
+Print Assumptions driver_send_refines_queue_machine.
 Print Assumptions future_value_means_all_accepted.
 Print Assumptions partial_write_keeps_front.
 Print Assumptions resolves_only_front.
